@@ -1,5 +1,63 @@
-(* C01 - placeholder while the proofs are being written; replaced below. *)
-From Coq Require Import List.
-From PMS Require Import Model.Gateway.
-Theorem C01_placeholder : True. Proof. exact I. Qed.
-Print Assumptions C01_placeholder.
+(* C01 - the message pump cannot be crashed or tricked by input.  Statements only.
+   Machine: Model/Gateway.v (dispatcher, all handlers, OTA session, smart sleep, both task
+   flavours) over the GENERATED tables and registry; oracles (awesomeversion, float(), clock) are
+   universally quantified. *)
+From Coq Require Import List NArith ZArith Bool String.
+From PMS Require Import Base.PyStr Base.Exn Model.Codec Model.TableTypes Gen.Tables Model.Validate
+  Model.Oracles Model.Hex Model.Ota Model.Gateway Proofs.GwInv Proofs.C01Proofs.
+Import ListNotations.
+
+(* decode can fail in one way only (the model of ValueError): it is total into option *)
+Theorem C01_decode_only_valueerror : forall l : pstr, decode l = None \/ exists m, decode l = Some m.
+Proof. intro l. destruct (decode l) as [m|]; [right; exists m; reflexivity|left; reflexivity]. Qed.
+
+(* a line that does not decode, or does not validate for the configured version, has no effect
+   at all: same state (sensors, queues, OTA stores, dirty flag, job queue), no reply, no event *)
+Theorem C01_rejected_is_noop :
+  forall orc clock g l,
+    (decode l = None \/ exists m, decode l = Some m /\ gvalidate orc g m = false) ->
+    logic orc clock g l = Ok (g, None).
+Proof. exact rejected_is_noop. Qed.
+
+(* For every one of the five configurations, every oracle, every history of inbound lines (ANY
+   text), pump iterations and controller calls (set_child_value with any value type / value /
+   kwargs, update_fw with images whose block count fits 16 bits, set metric) in both task
+   flavours: in the state reached, the dispatcher processes ANY next line, and any line still
+   queued, without raising. *)
+Theorem C01_pump_total :
+  forall orc clock cf ops l, cfg_ok cf -> Forall op_ok ops ->
+    let g := run orc clock (gw_init cf) ops in
+    (exists g' r, logic orc clock g l = Ok (g', r)) /\
+    (forall l' rest, g_jobs g = JLogic l' :: rest ->
+       exists g' r, logic orc clock (set_jobs g rest) l' = Ok (g', r)).
+Proof. exact pump_total. Qed.
+
+(* the invariant that carries it, for every reachable state *)
+Theorem C01_reachable_invariant :
+  forall orc clock cf ops, cfg_ok cf -> Forall op_ok ops ->
+    Inv orc (run orc clock (gw_init cf) ops) /\ g_cf (run orc clock (gw_init cf) ops) = cf.
+Proof. intros orc clock cf ops C F. exact (run_ok orc clock ops (gw_init cf) C (Inv_init orc cf) F). Qed.
+
+(* the pump still works afterwards: a config request from a node the gateway does not hold back
+   is answered with M or I *)
+Theorem C01_liveness_probe :
+  forall orc clock g, cfg_ok (g_cf g) -> get_node g 200 = None ->
+    logic orc clock g probe = Ok (g, Some (probe_reply (g_metric g))).
+Proof. exact liveness_probe. Qed.
+
+(* non-vacuity: the five configurations exist; a malformed stream request from a known node is
+   accepted by validation and ignored by the dispatcher (the D1 scenario) *)
+Example C01_cfg_exists : cfg_ok (mkConfig tab_22 true false true false).
+Proof. exists Spec.SerialApi.V22. split; reflexivity. Qed.
+Example C01_malformed_stream_request_ignored :
+  let g := run no_oracles 0 (gw_init (mkConfig tab_22 true true false false))
+               [Recv (s2p "1;255;0;0;3;x") ] in
+  get_node g 1 <> None /\
+  g_log (step no_oracles 0 g (Recv (s2p "1;255;4;0;2;zz"))) = g_log g.
+Proof. vm_compute. split; [discriminate|reflexivity]. Qed.
+
+Print Assumptions C01_decode_only_valueerror.
+Print Assumptions C01_rejected_is_noop.
+Print Assumptions C01_pump_total.
+Print Assumptions C01_reachable_invariant.
+Print Assumptions C01_liveness_probe.
